@@ -71,7 +71,9 @@ VALUES = {
 
 def _mk_enc(kind, a, b):
     """the encoded string handed out by the stub codec, inside the codec's lexical contract:
-    a dateTime contains 'T' (a + 'T' + b), a date does not (pre-condition), a duration is arbitrary"""
+    a dateTime contains 'T' (a + 'T' + b), a date does not (pre-condition), a duration is arbitrary;
+    none of them is the word true or false (pre-condition: no date or duration is written that way,
+    and the generic attribute getter turns exactly these two words into a bool)"""
     if kind == "datetime":
         return a + "T" + b
     return a + b
@@ -83,7 +85,7 @@ def _fresh(el):
 
 def cell_temporal(a: str, b: str) -> bool:
     """
-    pre: len(a) <= NT and len(b) <= NT and (KIND != "date" or ("T" not in a and "T" not in b))
+    pre: len(a) <= NT and len(b) <= NT and (KIND != "date" or ("T" not in a and "T" not in b)) and a + b != "true" and a + b != "false"
     post: _
     """
     enc = _mk_enc(KIND, a, b)
@@ -109,7 +111,7 @@ def cell_temporal(a: str, b: str) -> bool:
 
 def meta_temporal(a: str, b: str) -> bool:
     """
-    pre: len(a) <= NT and len(b) <= NT and (KIND != "date" or ("T" not in a and "T" not in b))
+    pre: len(a) <= NT and len(b) <= NT and (KIND != "date" or ("T" not in a and "T" not in b)) and a + b != "true" and a + b != "false"
     post: _
     """
     enc = _mk_enc(KIND, a, b)
@@ -164,7 +166,7 @@ def cell_simple(b: bool) -> bool:
 
 def meta_overwrite(first: int, a: str, b: str) -> bool:
     """
-    pre: 0 <= first <= 3 and len(a) <= NT and len(b) <= NT and (KIND != "date" or ("T" not in a and "T" not in b))
+    pre: 0 <= first <= 3 and len(a) <= NT and len(b) <= NT and (KIND != "date" or ("T" not in a and "T" not in b)) and a + b != "true" and a + b != "false"
     post: _
     """
     # overwriting an existing user-defined entry with a value of another type: the entry then
@@ -201,7 +203,7 @@ def _in_body(e):
 
 def carrier_temporal(a: str, b: str) -> bool:
     """
-    pre: len(a) <= NT and len(b) <= NT and (KIND != "date" or ("T" not in a and "T" not in b))
+    pre: len(a) <= NT and len(b) <= NT and (KIND != "date" or ("T" not in a and "T" not in b)) and a + b != "true" and a + b != "false"
     post: _
     """
     # a date / datetime / timedelta stored in a variable, user field or user-defined field comes back
